@@ -454,8 +454,60 @@ def observer_case(rng):
     return Case("observer:" + "+".join(seq), {"text": text, "transformations": seq}, lines, nontrivial=True)
 
 
+ROUND = [1 << 8, 1 << 10, 1 << 12, 1 << 15, 1 << 16, 1000, 10000, 100000, 1 << 17]
+
+
+def long_process_case(rng):
+    """a call made after ANY NUMBER of other calls: the sentence stays alive while the process builds very many other
+    nodes (a long-running conversion), then it is transformed; the amount of unrelated work is chosen near the round
+    numbers at which a counter could wrap"""
+    from impl import transform
+    text = ""
+    k = rng.randint(1, 2)
+    for i in range(k):
+        t = treegen.gen_tree(rng, treegen.Cfg(n_min=3, n_max=9, p_disc=0.5, p_root_direct=0.6, none_fields=False, labels=["S", "VP", "NP", "PP"],
+                                              words=["a", "b", "Haus"], punct_words=[",", "."], p_punct=0.2, edges=["HD", "--"], large=False))
+        t.data['sid'] = i + 1
+        s = io.StringIO()
+        treeoutput.export(clone_sid(t), s)
+        text += s.getvalue()
+    seq = rng.choice([["add_topnode"], ["root_attach", "negra_mark_heads", "binarize"], ["add_topnode", "root_attach", "punctuation_verylow"],
+                      ["root_attach", "negra_mark_heads", "boyd_split", "raising"], ["root_attach", "negra_mark_heads", "boyd_split"]])
+    R = rng.choice(ROUND)
+    with cli.Scratch() as sc:
+        p = sc.write("x.export", text)
+
+        def run(work):
+            with quiet():
+                ts = list(treeinput.export(p, "utf-8", quiet=True))
+            if work:
+                ids = sorted(n.id for t in ts for n in trees.preorder(t))
+                probe = trees.Tree(trees.make_node_data())
+                # unrelated work: the next node is the (R + j)-th after the first node of the live sentences
+                todo = R - (probe.id - ids[0]) - 1 + rng.randint(0, len(ids) - 1)
+                for _ in range(max(todo, 0)):
+                    trees.Tree(trees.make_node_data())
+            res = []
+            with quiet():
+                for t in ts:
+                    for name in seq:
+                        t = getattr(transform, name)(t, quiet=True)
+                    res.append(t)
+            nodes = [n for t in res for n in trees.preorder(t)]
+            return "different-nodes=%d-of-%d\n" % (len(set(nodes)), len(nodes)) + observe(res)
+        try:
+            a, b = run(False), run(True)
+        except Exception as e:
+            a, b = "raised", proto.err_name(e)
+    lines = [Line("pred", "P.C18.eq", [proto.enc_s(a), proto.enc_s(b)],
+                  note="%s right away vs after about %d unrelated node constructions" % ("+".join(seq), R))]
+    return Case("long-process:" + "+".join(seq), {"text": text, "transformations": seq, "unrelated_nodes": R}, lines, nontrivial=True)
+
+
 def gen(seed, tier, scale):
     idx = 0
+    for i in range((40 if tier == "quick" else 400) * scale):
+        yield 800000 + i, long_process_case(case_rng(seed, ID, 800000 + i))
     for _ in range((200 if tier == "quick" else 4000) * scale):
         rng = case_rng(seed, ID, idx)
         yield idx, observer_case(rng)
